@@ -468,7 +468,8 @@ def r3_covers(prog, rep: Report, tp: Cls, fp: Cls):
     for q in ps:
         loops = [e for e in q.events if e[0] == "loop"]
         walks = [e for e in loops if isinstance(_unwrap_copy(e[2]), tuple) and _unwrap_copy(e[2])[0] == "mcall"
-                 and _unwrap_copy(e[2])[1] == "values" and is_hf0(_unwrap_copy(e[2])[2])]
+                 and _unwrap_copy(e[2])[1] in ("values", "items") and is_hf0(_unwrap_copy(e[2])[2])]
+        item_walks = {e[1]: _unwrap_copy(e[2])[2] for e in walks if _unwrap_copy(e[2])[1] == "items"}   # loop id -> the mapping term
         if q.exit != "return":
             if any(e[0] == "raise" for e in q.events):
                 why = why or "close() raises instead of closing the handles"
@@ -482,6 +483,12 @@ def r3_covers(prog, rep: Report, tp: Cls, fp: Cls):
         for i, e in enumerate(evs):
             if e[0] == "iter" and isinstance(e[2], tuple) and e[2][0] == "elem":
                 closes = [x for x in evs[i + 1:] if x[0] == "call" and x[1] == "close" and x[2] == e[2]]
+                if len(closes) != 1:
+                    why = why or "a handle of the mapping is not closed (the loop can skip it)"
+            if e[0] == "iter" and e[1] in item_walks:
+                # for path, handle in mapping.items(): the handle is the value half of the pair
+                val = ("val", item_walks[e[1]], e[1])
+                closes = [x for x in evs[i + 1:] if x[0] == "call" and x[1] == "close" and x[2] == val]
                 if len(closes) != 1:
                     why = why or "a handle of the mapping is not closed (the loop can skip it)"
         if q.heap.get(hf) != ("c", None):
